@@ -23,6 +23,7 @@ type OblResult struct {
 	Nondets  map[string]string `json:"nondets,omitempty"`
 	Schedule []string          `json:"schedule,omitempty"`
 	Entries  []SchedEntry      `json:"schedule_entries,omitempty"`
+	Blocked  []BlockedRec      `json:"blocked,omitempty"`
 	SchedIdx []int             `json:"sched_idx,omitempty"`
 	Detail   string            `json:"detail,omitempty"`
 	Cross    string            `json:"cross,omitempty"`
@@ -468,6 +469,9 @@ func main() {
 				if si != nil {
 					or.Schedule = e.describeSchedule(si, r.Model)
 					or.Entries = e.scheduleEntries(si, r.Model)
+					if qq.kind == "stuck" {
+						or.Blocked = e.blockedUnder(si, r.Model)
+					}
 					for t := 0; t < len(si.S); t++ {
 						or.SchedIdx = append(or.SchedIdx, int(r.Model[fmt.Sprintf("s_%d", t)]))
 					}
